@@ -1,4 +1,5 @@
 import SwcVerif.Props.C13
+import SwcVerif.Refine.VolCtl
 #print axioms C13.sphere_volume
 #print axioms C13.cap_volume
 #print axioms C13.frustum_volume
@@ -14,3 +15,6 @@ import SwcVerif.Props.C13
 #print axioms C13.exitT_on_sphere
 #print axioms C13.exitT_eq_model
 #print axioms C13.union_volume
+#print axioms RefineVolCtl.sphere_volume_gen
+#print axioms RefineVolCtl.generated_sphere2_cases
+#print axioms RefineVolCtl.generated_sphere2_true_volume
